@@ -4,7 +4,7 @@ arbitrary bytes and truncations / corruptions / splices of valid payloads; every
 either return its documented result or raise ValueError."""
 import os, sys, io, tempfile
 sys.path.insert(0, os.path.dirname(os.path.abspath(__file__)))
-from common import Component, emit, rng, TIER, time_limit, CaseTimeout, load_spec_module
+from common import Component, emit, rng, TIER, time_limit, CaseTimeout, load_spec_module, limited_call
 cfggen = load_spec_module("cfggen")
 gens = load_spec_module("gens")
 from dissect.cobaltstrike.beacon import BeaconConfig
@@ -129,9 +129,11 @@ EPS = [ep_from_bytes, ep_from_bytes_all_keys, ep_from_file, ep_from_path, ep_xor
 VIEWS_MAY_RAISE = ()     # ep_views is reported separately (constructing from arbitrary bytes is not one of the listed entry points)
 comps = {ep.__name__: Component(ep.__name__, "seeds of every container kind (raw, PE, XorEncoded, Guardrails, crafted PE fields, "
                                 "over-long User-Agent, ArtifactKit header, HTTP messages) + truncations, byte/bit corruptions, crafted "
-                                "16/32-bit fields, splices, and random byte strings; returns within 20 s with the documented result or "
+                                "16/32-bit fields, splices, and random byte strings; returns within 900 s of CPU time (cases over 20 s are re-run under the long limit) with the documented result or "
                                 "ValueError; %d inputs quick / %d thorough" % (260, 6000)) for ep in EPS}
 inputs = list(SEEDS) + [b"", b"\x00", b"MZ", b"\xff" * 64, bytes(range(256))]
+if TIER != "quick":
+    inputs.append(b"\xff" * 1500)        # the slowest input known: ~1000 nonce candidates, each probed 1024 times (minutes, but bounded)
 N = 260 if TIER == "quick" else 6000
 while len(inputs) < N:
     r = rng.random()
@@ -144,13 +146,12 @@ for n, d in enumerate(inputs):
         if ep is ep_from_bytes_all_keys and len(d) > 3000 and TIER == "quick" and n % 4:
             continue            # 254 further scans per call: sampled in the quick tier
         try:
-            with time_limit(20):
-                ep(d)
+            limited_call(lambda: ep(d))
             ok, why = True, None
         except ValueError:
             ok, why = True, None
         except CaseTimeout:
-            ok, why = False, "no result within 20 s"
+            ok, why = False, "no result within 900 s of CPU time"
         except BaseException as ex:   # noqa
             ok, why = False, f"{type(ex).__name__}: {ex}"[:300]
         comps[ep.__name__].case((n, len(d)), ok, witness={"entry_point": ep.__name__, "input_len": len(d), "input_hex": d.hex()[:6000],
